@@ -1737,6 +1737,7 @@ impl BytecodeVM {
             self.saved_env_stack = frame.saved_env_stack;
             self.arguments = frame.arguments;
             self.new_target = frame.new_target;
+            self.current_constructor = frame.current_constructor;
             self.pending_completion = frame.pending_completion;
 
             // Restore interpreter environment
